@@ -242,6 +242,11 @@ def check_factory(cfg):
                 if run["exp"] is None:
                     # identify the trial's seed from its first result (then it is fixed for all runs of the trial)
                     cands = [seed_of[t]] if t in seed_of else ([cfg["bseed"]] if cfg.get("bseed") is not None else list(range(n_seeds)))
+                    drawn = getattr(ex.backend, "_seed_for_trial", {}).get(t)
+                    if t not in seed_of and cfg.get("bseed") is None and drawn is not None:
+                        # the seed the backend drew and recorded for this trial (part of its saved state): the rows must be
+                        # those of this seed, not of any seed (a duplicate configuration may have been run with another one)
+                        cands = [int(drawn)]
                     chosen = None
                     for s in cands:
                         exp = expected_run(cfg, obj, rows, run["config"], s, run["p"], run["T_s"])
@@ -340,11 +345,12 @@ def configs(tier, seed):
                                     continue
                                 if tier == "thorough" and (i + seed) % 4 != 0:
                                     continue
-                                n_seeds = 1 + (i % 2)
+                                j = len(out)      # (not i: the sub-sampling above is periodic in i)
+                                n_seeds = 1 + (j % 2)
                                 loop_cap = 400 if sleep >= 0.1 else 3000
                                 out.append(dict(kind=kind, ckpt=ckpt, mra=mra, timecol=timecol, simconf=simconf, sleep=sleep, W=W,
-                                                n_a=2 + (i % 2), n_seeds=n_seeds, R=4 if i % 3 else 3, seed=seed,
-                                                bseed=None if i % 4 else 0, stop={"max_num_trials_started": 4},
+                                                n_a=2 + ((j // 2) % 2), n_seeds=n_seeds, R=4 if j % 3 else 3, seed=seed,
+                                                bseed=None if j % 4 else 0, stop={"max_num_trials_started": 4},
                                                 k=1 if tier == "quick" else 2, loop_cap=loop_cap,
                                                 max_exec=60 if tier == "quick" else 600))
     # always present: pause-resume without max_resource_attr where the next report falls inside the stop window
